@@ -79,6 +79,14 @@ func (this *QRCodeWriter) Encode(
 			"IllegalArgumentException: EncodeHintType_MARGIN must not be negative: %d", quietZone)
 	}
 
+	switch errorCorrectionLevel {
+	case decoder.ErrorCorrectionLevel_L, decoder.ErrorCorrectionLevel_M,
+		decoder.ErrorCorrectionLevel_Q, decoder.ErrorCorrectionLevel_H:
+	default:
+		return nil, gozxing.NewWriterException(
+			"IllegalArgumentException: EncodeHintType_ERROR_CORRECTION %d", int(errorCorrectionLevel))
+	}
+
 	code, e := encoder.Encoder_encode(contents, errorCorrectionLevel, hints)
 	if e != nil {
 		return nil, e
